@@ -23,7 +23,7 @@ def build(entry):
     return [(NAMES[v["name"]], VAL[v["kind"]]) for v in entry["vbs"]], PTYPE[entry["ptype"]]
 
 
-def case(rec, cfg, agent, op, entry, sid=1, variant=0):
+def case(rec, cfg, agent, op, entry, sid=1, variant=0, es=0):
     first = rec.n
     s = rawdrv.RawSession(rec, cfg, sid=sid)
     if op == "get":
@@ -41,7 +41,8 @@ def case(rec, cfg, agent, op, entry, sid=1, variant=0):
             rid = [req.reqid, 0, 2 ** 31 - 1, (req.reqid + 1) & 0x7FFFFFFF][variant % 4]
             d = agent.reply(cfg, req, vbs, ptype="report", reqid=rid)
         else:
-            d = agent.reply(cfg, req, vbs, ptype=ptype)
+            # the statement speaks of the varbinds of the matching reply, whatever error-status / error-index it carries
+            d = agent.reply(cfg, req, vbs, ptype=ptype, es=es, ei=(1 if es and vbs else 0))
         s.inject(d)
         s.recv(op)
     s.close()
@@ -105,6 +106,11 @@ def run(tier):
                 a, b = case(rec, std[cn], agent, op, e, variant=ei)
                 runs.append((a, b, dict(cfg=cn, op=op, entry=e)))
                 chk.case((cn, op, json.dumps(e, sort_keys=True)), nontrivial=(e["ptype"] != 0 and (len(e["vbs"]) > 0 or e["ptype"] == 8)))
+                if e["ptype"] == 2 and (len(e["vbs"]) <= 1 or (ei + ci) % 5 == 0):
+                    es = [2, 5, 1, 3, 18][(ei + ci) % 5]            # noSuchName, genErr, tooBig, badValue, inconsistentName
+                    a, b = case(rec, std[cn], agent, op, e, variant=ei, es=es)
+                    runs.append((a, b, dict(cfg=cn, op=op, entry=e, es=es)))
+                    chk.case((cn, op, es, json.dumps(e, sort_keys=True)))
     nraw = len(runs)
     items = api_items(entries, thorough)
     runs += apiscripts.exchanges(rec, items)
@@ -126,7 +132,9 @@ def run(tier):
         sig = dict(op=info["op"] if "api" not in info else info["api"] + "." + info["op"], ver=std[info["cfg"]].ver, ptype=PTYPE[e["ptype"]], nvb=len(e["vbs"]),
                    kinds="+".join(sorted({x["kind"] for x in e["vbs"]})), expected=e["get"] if info["op"] == "get" else e["many"],
                    got=ev.get("exc") or ev.get("res", {}).get("t"))
-        chk.violation(sig, "%s on %s reply %s: expected %s got %s" % (info["op"], info["cfg"], json.dumps(e["vbs"]), sig["expected"], sig["got"]),
+        if info.get("es"):
+            sig["error_status"] = True
+        chk.violation(sig, "%s on %s reply %s%s: expected %s got %s" % (info["op"], info["cfg"], json.dumps(e["vbs"]), (" with error-status %d" % info["es"]) if info.get("es") else "", sig["expected"], sig["got"]),
                       dict(info=info, events=rec.events[a:idx + 1]), confirm=(confirm_by_replay(replay, dict(info=info)) if ("api" in info and timing_event(ev)) else None))
     chk.sample(dict(kind="table-entry", entry=entries[777]))
     chk.sample(dict(kind="events", events=rec.events[runs[9][0]:runs[9][1]][1:4]))
@@ -143,7 +151,7 @@ def replay(path):
         oids = ["1.3.6.1.4.1.9999.1.0"] if info["op"] == "get" else ["1.3.6.1.4.1.9999.1.0", "1.3.6.1.4.1.9999.2.0"]
         apiscripts.exchanges(rec, [(info["api"], scripts.std_cfgs()[info["cfg"]], info["op"], oids, api_answer(ag.Agent(), info["entry"], info.get("variant", 0)), info)])
     else:
-        a, b = case(rec, scripts.std_cfgs()[info["cfg"]], ag.Agent(), info["op"], info["entry"])
+        a, b = case(rec, scripts.std_cfgs()[info["cfg"]], ag.Agent(), info["op"], info["entry"], es=info.get("es", 0))
     v = trace.validate("TraceSession.tla", "TraceSession.cfg", rec.close())
     if v["accepted"] and not v["fails"]:
         print("replay: accepted")
